@@ -103,7 +103,9 @@ SumKidsObs(C, f, n) == RSumSeq([i \in 1..Len(C.kids[n]) |-> f[C.kids[n][i]]])
 IsK4(C, s, e) ==
   /\ e[1] \in {"C05.sizing", "C06.rebalance"} /\ e[2] = "ok" /\ s.t > 0 /\ ~Bad(e[4]) /\ ~IsZero(e[4])
   /\ RAdd(e[4], SecVal(C, s, e[3])) = Zero /\ e[5] # RNeg(s.pos[e[3]])
-K4Nodes(C, s, r) == {r.chk[i][3] : i \in {j \in 1..Len(r.chk) : IsK4(C, s, r.chk[j])}}
+\* (a liquidation at a date change trades at the new date's prices)
+AtPost(s, r) == [s EXCEPT !.t = r.st.t]
+K4Nodes(C, s, r) == {r.chk[i][3] : i \in {j \in 1..Len(r.chk) : IsK4(C, AtPost(s, r), r.chk[j])}}
 
 Judge(C, s, ev, r, prevchk) ==
   LET post == r.st
@@ -113,7 +115,7 @@ Judge(C, s, ev, r, prevchk) ==
                  LAMBDA n : <<"C07.cash", n, ChkEq(ev.cash[n], post.cash[n], D)>>)
         \o [i \in 1..Len(r.chk) |->
               <<r.chk[i][1], r.chk[i][3],
-                IF IsK4(C, s, r.chk[i]) THEN "K4"
+                IF IsK4(C, AtPost(s, r), r.chk[i]) THEN "K4"
                 ELSE IF r.chk[i][2] # "fail" \/ r.chk[i][1] \notin {"C05.sizing", "C06.rebalance"} THEN r.chk[i][2]
                 ELSE LET k == KF_C05(C, s, r.chk[i][3], r.chk[i][4], r.chk[i][5], FALSE)
                      IN  IF k = "none" THEN "fail" ELSE k>>]
